@@ -328,6 +328,8 @@ func (o EOp) Line() string {
 		return o.Kind + " " + proto.EncRule(o.Args)
 	case "mpos":
 		return "mpos"
+	case "rbac":
+		return strings.TrimRight("rbac "+o.What+" "+proto.EncRule(o.Args), " ") + " || " + proto.EncRules(o.Rules)
 	case "iperms":
 		return "iperms " + o.What + " " + o.PType + " " + proto.EncRule(o.Args)
 	}
@@ -591,6 +593,8 @@ func (s *Sess) execInner(o EOp) (obs string) {
 			return mres(e.UpdateFilteredNamedPolicies(o.PType, s.hand(o, o.News), o.FI, o.Vals...))
 		}
 		panic("updf on g is not in the public API")
+	case "rbac":
+		return s.execRbac(o)
 	case "clear":
 		e.ClearPolicy()
 		return "ok"
